@@ -23,7 +23,17 @@ func TestVerifC05TwoNodes(t *testing.T) {
 	g := genTnCase()
 	vk.Check(t, u, func(t *rapid.T) tnCase { return g.Draw(t, "case") }, func(c *vk.Ctx, cs tnCase) {
 		w := tnRun(c, &cs)
-		defer w.close()
+		if w.noVerdict {
+			w.close()
+			return
+		}
+		defer func() {
+			r := recover()
+			w.close()
+			if _, ok := r.(tnNoVerdict); r != nil && !ok {
+				panic(r)
+			}
+		}()
 		waited := false
 		for i, s := range w.subs {
 			_ = i
@@ -79,7 +89,17 @@ func TestVerifC07TwoNodes(t *testing.T) {
 	g := genTnCase()
 	vk.Check(t, u, func(t *rapid.T) tnCase { return g.Draw(t, "case") }, func(c *vk.Ctx, cs tnCase) {
 		w := tnRun(c, &cs)
-		defer w.close()
+		if w.noVerdict {
+			w.close()
+			return
+		}
+		defer func() {
+			r := recover()
+			w.close()
+			if _, ok := r.(tnNoVerdict); r != nil && !ok {
+				panic(r)
+			}
+		}()
 		all := func(o tnObservation) bool {
 			for i := range w.subs {
 				if o.Delivered[i] == 0 {
@@ -124,7 +144,17 @@ func TestVerifC15TwoNodes(t *testing.T) {
 	g := genTnCase()
 	vk.Check(t, u, func(t *rapid.T) tnCase { return g.Draw(t, "case") }, func(c *vk.Ctx, cs tnCase) {
 		w := tnRun(c, &cs)
-		defer w.close()
+		if w.noVerdict {
+			w.close()
+			return
+		}
+		defer func() {
+			r := recover()
+			w.close()
+			if _, ok := r.(tnNoVerdict); r != nil && !ok {
+				panic(r)
+			}
+		}()
 		count := func(o tnObservation, i int) (recv, dlv int, others []tnReport) {
 			s := w.subs[i]
 			ids := map[string]bool{}
@@ -246,7 +276,17 @@ func TestVerifC11TwoNodes(t *testing.T) {
 	g := genTnCase()
 	vk.Check(t, u, func(t *rapid.T) tnCase { return g.Draw(t, "case") }, func(c *vk.Ctx, cs tnCase) {
 		w := tnRun(c, &cs)
-		defer w.close()
+		if w.noVerdict {
+			w.close()
+			return
+		}
+		defer func() {
+			r := recover()
+			w.close()
+			if _, ok := r.(tnNoVerdict); r != nil && !ok {
+				panic(r)
+			}
+		}()
 		o := w.settle(func(o tnObservation) bool { return true })
 		w.classify(o)
 		if w.proxy.Cuts() > 0 || w.downs+w.restarts > 0 {
@@ -280,7 +320,17 @@ func TestVerifC06TwoNodes(t *testing.T) {
 	g := genTnCase()
 	vk.Check(t, u, func(t *rapid.T) tnCase { return g.Draw(t, "case") }, func(c *vk.Ctx, cs tnCase) {
 		w := tnRun(c, &cs)
-		defer w.close()
+		if w.noVerdict {
+			w.close()
+			return
+		}
+		defer func() {
+			r := recover()
+			w.close()
+			if _, ok := r.(tnNoVerdict); r != nil && !ok {
+				panic(r)
+			}
+		}()
 		all := func(o tnObservation) bool {
 			for i := range w.subs {
 				if o.Delivered[i] == 0 {
